@@ -3,6 +3,8 @@ import CMacVerif.Model.Shells
 import CMacVerif.Model.AMRTree
 import CMacVerif.Model.Cartesian
 import CMacVerif.Model.Buckets
+import CMacVerif.Model.AMRTraverse
+import CMacVerif.Model.Octree
 import CMacVerif.Inst.Float
 import CMacVerif.Util.Bits
 open CMacVerif CMacVerif.Util
@@ -145,7 +147,54 @@ def build (n : Int) (a s : V3 Float) (pts : Array (V3 Float)) : Built :=
     npts := pts.size, chk := chk, bad := bad }
 end Pl
 
+namespace Ad
+open CMacVerif.AMRT CMacVerif.AMR CMacVerif.GridNum
+
+def tabAt (t : Array Float) (k : Nat) : Float := if t.size = 0 then 0.0 else t[(k % 1000003) % t.size]!
+
+/-- split a token list at the separator "|" -/
+def splitBar (l : List String) : List String × List String :=
+  (l.takeWhile (· != "|"), (l.dropWhile (· != "|")).drop 1)
+
+def accumulate (sig : Float) (path : List (Ref × Float)) : List (Nat × Float) :=
+  path.reverse.foldl (fun acc (r, ds) =>
+    let k := keyOf r
+    let dj := ds * 1.0 * sig
+    match acc.find? (fun e => e.1 == k) with
+    | some _ => acc.map (fun e => if e.1 == k then (e.1, e.2 + dj) else e)
+    | none => acc ++ [(k, dj)]) []
+
+def insertSorted (e : Nat × Float) : List (Nat × Float) → List (Nat × Float)
+  | [] => [e]
+  | h :: r => if e.1 < h.1 then e :: h :: r else h :: insertSorted e r
+def sortByKey (l : List (Nat × Float)) : List (Nat × Float) := l.foldl (fun acc e => insertSorted e acc) []
+end Ad
+
+namespace Oc
+open CMacVerif.Oct CMacVerif.GridNum
+
+structure Built where
+  tree : OT Float := .empty
+  pos : Array (V3 Float) := #[]
+  hs : Array Float := #[]
+  box : Box3 Float := ⟨0.0, 0.0, 0.0, 1.0, 1.0, 1.0⟩
+  per : Bool := false
+
+def quads : List String → List (V3 Float × Float)
+  | x :: y :: z :: h :: r => (⟨flt! x, flt! y, flt! z⟩, flt! h) :: quads r
+  | _ => []
+
+def pd (b : Built) (c : V3 Float) (i : Nat) : Float :=
+  if b.per then perDist b.box (b.pos[i]!) c else dist (b.pos[i]!) c
+def bd (b : Built) (c : V3 Float) (bx : Box3 Float) : Float :=
+  if b.per then perBoxDist b.box bx c else boxDist bx c
+end Oc
+
 structure St where
+  oc : Oc.Built := {}
+  ad : AMRT.AGrid Float := ⟨⟨1, 1, 1, fun _ _ _ => .leaf⟩, ⟨0.0, 0.0, 0.0, 1.0, 1.0, 1.0⟩, false, false, false⟩
+  adx : Array Float := #[]
+  add : Array Float := #[]
   pl : Option Pl.Built := none
   cart : Cartesian.Grid Float := Cartesian.mkGrid ⟨0.0, 0.0, 0.0, 1.0, 1.0, 1.0⟩ ⟨1, 1, 1⟩ false false false
   xtab : Array Float := #[]
@@ -283,13 +332,59 @@ def step (st : St) : List String → St × String
       let exS := match ex with | .allBlocks => "all-blocks" | .covered => "covered" | .fuel => "FUEL"
       let lv := s.idx.level
       (st, s!"pl near {s.best.idx} {showF s.best.r2} #pl-{exS} #pl-level-{if lv > 3 then 4 else lv}")
-  | "oct" :: "new" :: rest => (st, s!"oct new {(rest.length - 7) / 4}")
-  | ["oct", "ngbs", _, _, _] => (st, "oct ngbs")
-  | ["oct", "sphere", _, _, _, _] => (st, "oct sphere")
-  | ["oct", "closest", _, _, _] => (st, "oct closest")
-  | "amrd" :: "new" :: _ => (st, "amrd new")
-  | ["amrd", "loc", _, _, _] => (st, "amrd loc")
-  | ["amrd", "ray", _, _, _, _, _, _, _, _] => (st, "amrd ray")
+  | "oct" :: "new" :: per :: ax :: ay :: az :: sx :: sy :: sz :: rest =>
+    let qs := Oc.quads rest
+    let pos := (qs.map (·.1)).toArray
+    let hs := (qs.map (·.2)).toArray
+    let box : GridNum.Box3 Float := ⟨flt! ax, flt! ay, flt! az, flt! sx, flt! sy, flt! sz⟩
+    let tree := Oct.build (fun i => pos[i]!) pos.size box (fun i => hs[i]!)
+    ({ st with oc := { tree := tree, pos := pos, hs := hs, box := box, per := per == "1" } }, s!"oct new {pos.size}")
+  | ["oct", "ngbs", qx, qy, qz] =>
+    let b := st.oc
+    let c : GridNum.V3 Float := ⟨flt! qx, flt! qy, flt! qz⟩
+    let r := Oct.searchRoot (Oc.pd b c) (Oc.bd b c) (fun i => b.hs[i]!) none b.tree
+    let rs := " ".intercalate ([s!"oct ngbs {r.length}"] ++ r.map toString)
+    (st, s!"{rs} #oct-found-{if r.length > 3 then 4 else r.length}")
+  | ["oct", "sphere", qx, qy, qz, rad] =>
+    let b := st.oc
+    let c : GridNum.V3 Float := ⟨flt! qx, flt! qy, flt! qz⟩
+    let r := Oct.searchRoot (Oc.pd b c) (Oc.bd b c) (fun i => b.hs[i]!) (some (flt! rad)) b.tree
+    let rs := " ".intercalate ([s!"oct sphere {r.length}"] ++ r.map toString)
+    (st, rs)
+  | ["oct", "closest", qx, qy, qz] =>
+    let b := st.oc
+    let c : GridNum.V3 Float := ⟨flt! qx, flt! qy, flt! qz⟩
+    (st, s!"oct closest {Oct.closestRoot (Oc.pd b c) (Oc.bd b c) Ca.dblMax b.tree}")
+  | "amrd" :: "new" :: ax :: ay :: az :: sx :: sy :: sz :: nx :: ny :: nz :: lv :: px :: py :: pz :: rest =>
+    let (xs, r1) := Ad.splitBar rest
+    let (ds, keys) := Ad.splitBar r1
+    let g0 := AMR.Grid.mk' (nat! nx) (nat! ny) (nat! nz) (nat! lv)
+    let g := keys.foldl (fun g k => (AMR.gridRefine g (nat! k)).1) g0
+    let G : AMRT.AGrid Float := ⟨g, ⟨flt! ax, flt! ay, flt! az, flt! sx, flt! sy, flt! sz⟩, px == "1", py == "1", pz == "1"⟩
+    ({ st with ad := G, adx := (xs.map flt!).toArray, add := (ds.map flt!).toArray }, s!"amrd new {Am.gridLeaves g}")
+  | ["amrd", "loc", px, py, pz] =>
+    let r := AMRT.locate st.ad ⟨flt! px, flt! py, flt! pz⟩
+    (st, s!"amrd loc {AMRT.keyOf r} #amrd-depth-{r.path.length}")
+  | ["amrd", "ray", px, py, pz, dx, dy, dz, tau, sh] =>
+    let G := st.ad
+    let sH := flt! sh
+    let m : AMRT.Medium Float := ⟨sH, fun k => Ad.tabAt st.add k, fun k => Ad.tabAt st.adx k⟩
+    let r := AMRT.interact Ca.dblMax G m ⟨flt! px, flt! py, flt! pz⟩ ⟨flt! dx, flt! dy, flt! dz⟩ (flt! tau) 100000
+    if !r.finished then (st, "amrd ray fuel-out") else
+    let js := (Ad.sortByKey (Ad.accumulate sH r.path)).filter (fun e => e.2 != 0.0)
+    let total := js.foldl (fun a e => a + e.2) 0.0
+    let shown := (js.take 10).map (fun e => s!"{e.1} {showF e.2}")
+    let cellS := match r.cell with | some c => toString (AMRT.keyOf c) | none => "-1"
+    let line := " ".intercalate ([s!"amrd ray {cellS} {Ca.showV r.pos} {js.length} {showF total}"] ++ shown)
+    let levels := (r.path.map (fun e => e.1.path.length))
+    let lvchg := (levels.zip (levels.drop 1)).any (fun (a, b) => a != b)
+    let blocks := r.path.map (fun e => (e.1.bx, e.1.by', e.1.bz))
+    let wrapd := (blocks.zip (blocks.drop 1)).any (fun (a, b) =>
+      (a.1 + 1 < b.1 || b.1 + 1 < a.1) || (a.2.1 + 1 < b.2.1 || b.2.1 + 1 < a.2.1) || (a.2.2 + 1 < b.2.2 || b.2.2 + 1 < a.2.2))
+    let tag := (if r.cell.isSome then "absorbed" else "escaped") ++ (if r.path.length ≤ 1 then "-1cell" else "-multi")
+    let extra := (if lvchg then " #amrd-level-change" else "") ++ (if wrapd then " #amrd-periodic-wrap" else "")
+      ++ (if r.od < 0.0 then " #amrd-corrected-last-step" else "") ++ (if r.od == 0.0 then " #amrd-tau-exactly-zero" else "")
+    (st, s!"{line} #amrd-{tag}{extra}")
   | _ => (st, "bad-op")
 
 def main : IO Unit := runDriver step ({} : St)
